@@ -445,16 +445,16 @@ Section Concrete3.
         destruct cur as [|c1 cur'].
         * eexists; reflexivity.
         * destruct (invalid_field (c1 :: cur') 0 (sv_std v) (sv_strict v) VF_NS); auto.
-          eexists. destruct root; reflexivity.
+          eexists. destruct root; simpl; rewrite ?andb_false_r; reflexivity.
       + unfold dotns_tok in Hd.
         destruct (split_incl_token (c0 :: t)) as [[[nsv whole]|] px] eqn:ST.
         * destruct nsv as [|n0 nsv']; [discriminate|].
           destruct (invalid_field whole 0 (sv_std v) (sv_strict v) VF_NS); auto.
-          eexists. destruct root; reflexivity.
+          eexists. destruct root; simpl; rewrite ?andb_false_r; reflexivity.
         * destruct cur as [|c1 cur'].
           -- eexists; reflexivity.
           -- destruct (invalid_field (c1 :: cur') 0 (sv_std v) (sv_strict v) VF_NS); auto.
-             eexists. destruct root; reflexivity.
+             eexists. destruct root; simpl; rewrite ?andb_false_r; reflexivity.
     - destruct root; auto. destruct cur; auto. eexists. reflexivity.
   Qed.
 
